@@ -348,6 +348,8 @@ func runC08(c *Ctx) {
 	c.Rule("commit-state: every AnimEncoder method that hands a frame to (*mux.Muxer).AddFrame has, on each successful exit, written every frame-to-frame state field that its sibling commit sites write (union over the sites; exceptions reviewed one per site+field in tables/animstate.txt)")
 	c.Rule("canvas-provenance: the canvas passed from the AddFrame entry to the encoder's frame methods is built only from the call's image and memory allocated in the call (followed through calls by result-provenance summaries), never loaded from encoder fields or package variables")
 	c.Rule("prev-canvas-fresh: every *image.NRGBA stored in an AnimEncoder field is the result of a function whose results are freshly allocated")
+	c.Rule("candidate-consistency: every call of a blending predicate is asked about the same reference canvas that the candidate's changed rectangle was computed against (findChangedRect's first argument, followed through snapping, clipping, local variables and helper parameters)")
+	c.Rule("frame-normalise: a conversion function that can return the caller's *image.NRGBA itself does so only under tests of its Stride and origin")
 	c.NotCovered("changed-rectangle detection, even snapping, dispose selection, duplicate merging, durations, key-frame policy (value-level over pixel data and histories)")
 	for _, cf := range c.configsFor() {
 		p := c.load(cf[0], cf[1])
@@ -422,6 +424,7 @@ func runC08(c *Ctx) {
 func runC09(c *Ctx) {
 	c.Rule("R1 reset: every AnimDecoder field that NextFrame (and what it calls) may modify is stored by Reset with a constant, and Reset clears both canvases, so a replay after Reset starts from the state NewAnimDecoder creates")
 	c.Rule("R2 fresh result: the image returned by NextFrame is allocated in that call and no reference to it (or to its pixel slice) is stored in the decoder or anywhere else; the decoder's own canvases are never returned by NextFrame")
+	c.Rule("R5 canvas refresh: every canvas of the decoder (an *image.NRGBA field) that NextFrame overwrites completely on some path (copy into its Pix, or a callee that writes all of Pix) is overwritten completely on every successful path - a refresh that is skipped on some path leaves the pixels of an older frame in a buffer the next frame starts from")
 	c.Rule("R3 history refresh: every history field that NextFrame may modify is written on every successful path through NextFrame (a field updated on some paths only keeps a stale value from an older frame)")
 	c.Rule("R4 blend exits: alphaBlendNRGBA leaves early only under conditions on the alpha values being 0 or 255; the specified blend has no other shortcut")
 	c.NotCovered("the blend arithmetic itself, rectangle clamping values, disposal order and that the key-frame shortcut never changes a result (value-level over pixel data)")
@@ -495,6 +498,8 @@ func runC09(c *Ctx) {
 			c.Check(cleared, "R1-reset", "AnimDecoder."+f.Name()+":cleared", p.Pos(reset.Pos()), "Reset clears the canvas",
 				"Reset does not clear canvas "+f.Name()+": a replay would composite onto leftover pixels")
 		}
+		// R5: both canvases are completely rewritten on every successful path of NextFrame
+		c09CanvasRefresh(c, p, next)
 		// R2
 		c09Fresh(c, p, next)
 		// R4
@@ -518,6 +523,18 @@ func writesAllPix(fn *ssa.Function) bool {
 	}
 	for _, b := range fn.Blocks {
 		for _, in := range b.Instrs {
+			// copy(param0.Pix, ...) or clear(param0.Pix)
+			if call, ok := in.(*ssa.Call); ok && len(call.Call.Args) > 0 {
+				if bi, ok := call.Call.Value.(*ssa.Builtin); ok && (bi.Name() == "copy" || bi.Name() == "clear") {
+					if ld, ok := call.Call.Args[0].(*ssa.UnOp); ok && ld.Op == token.MUL {
+						if fa, ok := ld.X.(*ssa.FieldAddr); ok && fa.X == ssa.Value(fn.Params[0]) {
+							if s := structOf(fa.X.Type()); s != nil && s.Field(fa.Field).Name() == "Pix" {
+								return true
+							}
+						}
+					}
+				}
+			}
 			st, ok := in.(*ssa.Store)
 			if !ok {
 				continue
@@ -821,4 +838,126 @@ func zeroStruct(v ssa.Value) bool {
 		}
 	}
 	return false
+}
+
+// c09CanvasRefresh: must-overwrite analysis for the decoder's canvases inside NextFrame.
+func c09CanvasRefresh(c *Ctx, p *Program, next *ssa.Function) {
+	recv := next.Params[0]
+	canvasOf := func(v ssa.Value) string {
+		// load of recv.<field> (pointer to NRGBA), or load of (load recv.<field>).Pix
+		ld, ok := v.(*ssa.UnOp)
+		if !ok || ld.Op != token.MUL {
+			return ""
+		}
+		fa, ok := ld.X.(*ssa.FieldAddr)
+		if !ok {
+			return ""
+		}
+		if fa.X == ssa.Value(recv) {
+			return fieldName(fa.X.Type(), fa.Field)
+		}
+		if fieldName(fa.X.Type(), fa.Field) == "Pix" {
+			if in, ok := fa.X.(*ssa.UnOp); ok && in.Op == token.MUL {
+				if fa2, ok := in.X.(*ssa.FieldAddr); ok && fa2.X == ssa.Value(recv) {
+					return fieldName(fa2.X.Type(), fa2.Field)
+				}
+			}
+		}
+		return ""
+	}
+	gen := map[*ssa.BasicBlock]map[string]bool{}
+	union := map[string]bool{}
+	for _, b := range next.Blocks {
+		g := map[string]bool{}
+		for _, in := range b.Instrs {
+			call, ok := in.(*ssa.Call)
+			if !ok || len(call.Call.Args) == 0 {
+				continue
+			}
+			if bi, ok := call.Call.Value.(*ssa.Builtin); ok && bi.Name() == "copy" {
+				if f := canvasOf(call.Call.Args[0]); f != "" {
+					g[f] = true
+				}
+				continue
+			}
+			if cal := call.Call.StaticCallee(); cal != nil && writesAllPix(cal) {
+				if f := canvasOf(call.Call.Args[0]); f != "" {
+					g[f] = true
+				}
+			}
+		}
+		gen[b] = g
+		for f := range g {
+			union[f] = true
+		}
+	}
+	if len(union) == 0 {
+		c.AnchorMissing("R5-canvas-refresh", "complete overwrites of the decoder's canvases in NextFrame")
+		return
+	}
+	// forward must-analysis
+	out := map[*ssa.BasicBlock]map[string]bool{}
+	for changed := true; changed; {
+		changed = false
+		for _, b := range next.Blocks {
+			var in map[string]bool
+			first := true
+			if b == next.Blocks[0] {
+				in, first = map[string]bool{}, false
+			}
+			for _, pr := range b.Preds {
+				po, ok := out[pr]
+				if !ok {
+					continue
+				}
+				if first {
+					in = map[string]bool{}
+					for k := range po {
+						in[k] = true
+					}
+					first = false
+				} else {
+					for k := range in {
+						if !po[k] {
+							delete(in, k)
+						}
+					}
+				}
+			}
+			if first {
+				continue
+			}
+			for k := range gen[b] {
+				in[k] = true
+			}
+			if old, had := out[b]; !had || len(old) != len(in) {
+				out[b] = in
+				changed = true
+			}
+		}
+	}
+	var fields []string
+	for f := range union {
+		fields = append(fields, f)
+	}
+	sort.Strings(fields)
+	for _, f := range fields {
+		bad := ""
+		for _, b := range next.Blocks {
+			ret, ok := b.Instrs[len(b.Instrs)-1].(*ssa.Return)
+			if !ok || len(ret.Results) == 0 {
+				continue
+			}
+			last := ret.Results[len(ret.Results)-1]
+			if k, ok := last.(*ssa.Const); !ok || !k.IsNil() {
+				continue // error return
+			}
+			if !out[b][f] {
+				bad = p.Pos(ret.Pos())
+			}
+		}
+		c.Check(bad == "", "R5-canvas-refresh", "AnimDecoder."+f, p.Pos(next.Pos()), "completely rewritten on every successful path of NextFrame",
+			"AnimDecoder."+f+" is completely rewritten on some paths through NextFrame but not on the one that returns at "+bad+": the next frame is composited over pixels of an older frame")
+	}
+	c.Floor("R5-canvas-refresh", len(fields), 2)
 }
